@@ -337,8 +337,14 @@ def _call(fn, *a):
     return out, None
 
 
-def check_point(chk, T, sh, l, theta, phi, which, relations=True):
-    """Compare one call with the table row.  Returns True when everything agreed."""
+def check_point(chk, T, sh, l, theta, phi, which, relations=True, history=False):
+    """Compare one call with the table row.  Returns True when everything agreed.
+    history: the two-call history Call(a); the caller overwrites its result in place; Call(a) - Y_lm is a
+    function of (l, theta, phi), so the second call must equal the table as well."""
+    if history is True:
+        if not check_point(chk, T, sh, l, theta, phi, which, relations=False, history="scribble"):
+            return False
+        return check_point(chk, T, sh, l, theta, phi, which, relations=relations, history="second")
     case = T.tab[l]
     name = {"direct": f"SphHarm{l}" if l <= 10 else "SphHarm_above", "dispatch": "sph_harm_l"}[which]
     info = {"fn": name, "l": l, "theta": theta, "phi": phi}
@@ -355,7 +361,10 @@ def check_point(chk, T, sh, l, theta, phi, which, relations=True):
     if out is None:
         chk.violation("dispatcher:returns None", info)
         return False
-    out = np.asarray(out)
+    raw = out
+    out = np.array(out)
+    if history == "scribble" and isinstance(raw, np.ndarray) and raw.flags.writeable:
+        raw[...] = 7.0          # the caller's own array: y *= w, y[:] = ... is ordinary use
     order = case["order"]
     if out.shape != (len(order),):
         chk.violation("order:length is not 2l+1" if which == "direct" else "dispatcher:wrong degree (length)",
@@ -371,6 +380,8 @@ def check_point(chk, T, sh, l, theta, phi, which, relations=True):
             clause = "order:m not ascending -l..l"
         if which == "dispatch":
             clause = "dispatcher:" + clause
+        if history == "second":
+            clause = "history:second call after the caller overwrote the first result:" + clause
         chk.violation(clause, dict(info, m=order[k], slot=k, wrong_slots=len(bad), expected=[exp[k].real, exp[k].imag],
                                    observed=[float(out[k].real), float(out[k].imag)]))
         return False
@@ -415,7 +426,8 @@ def run(tier, replay=None):
                 "consistency invariants; A: the emitted terms are evaluated at 40 digits on a 41x41 (theta,phi) grid incl. "
                 "poles and phi=+-pi and compared with SphHarm1..10, SphHarm_above(11..20) and sph_harm_l(1..20), slot by slot "
                 "in the order m=-l..l; B: seeded random angles (python and numpy floats) through the real code vs the same terms, "
-                "plus Unsold sum, conjugation symmetry and phi-covariance on the code's own outputs. "
+                "plus Unsold sum, conjugation symmetry and phi-covariance on the code's own outputs, and two-call histories "
+                "(call, the caller overwrites the returned array in place, same call again: Y_lm is a function of its arguments). "
                 "distinct_nontrivial = (function, l, angle pair) combinations compared (2l+1 complex values each).")
     chk.assumptions = ["identity in both angles is concluded from agreement on 41 theta x 41 phi points (> degree of the "
                        "trigonometric polynomials in the source) plus random points: interpolation, not a symbolic proof",
@@ -437,7 +449,7 @@ def run(tier, replay=None):
         T = Table(tab)
         l, th, ph = case["l"], case["theta"], case["phi"]
         which = "dispatch" if case.get("fn") == "sph_harm_l" else "direct"
-        okay = check_point(chk, T, sh, l, th, ph, which)
+        okay = check_point(chk, T, sh, l, th, ph, which, history=True)
         print(json.dumps({"case": case, "expected_row": [[z.real, z.imag] for z in T.row(l, th, ph)], "agrees_now": okay}, indent=1))
         return chk.finish()
 
@@ -488,7 +500,8 @@ def run(tier, replay=None):
             for which in ("direct", "dispatch"):
                 if (which, l) in failed:
                     continue
-                if check_point(chk, T, sh, l, float(th) if n % 3 != 1 else th, float(ph) if n % 3 != 1 else ph, which):
+                if check_point(chk, T, sh, l, float(th) if n % 3 != 1 else th, float(ph) if n % 3 != 1 else ph, which,
+                               history=(n % 2 == 0)):
                     chk.ok(("B", which, l, n))
                 else:
                     failed.add((which, l))
